@@ -14,6 +14,8 @@ for d in sorted(glob.glob(os.path.join(HERE, 'seeded', '*', 'meta.json'))):
     n += 1
     caught += bool(r.get('caught'))
     note = 'yes' if name not in fm else 'missed at first; yes after ' + fm[name]
+    if m.get('check_with'):
+        note = ('caught by %s; ' % m['check_with']) + m.get('scope_note', '')
     if not r.get('caught'):
         note = '**NO**'
     rows.append('| %s | %s | %s | %s |' % (m['property'], name, m['needs'], note))
